@@ -125,6 +125,12 @@ def gen_history(rnd: random.Random, flavor: dict) -> dict:
                 # the displacement move treats some particles as frozen
                 frozen = set(rnd.sample(sorted(set(x for x in dl if x >= 0)), 1))
                 dl = [-1 if x in frozen else x for x in dl]
+            if rnd.random() < 0.25 and p0 >= 2:
+                # ... or groups two exchangeable particles into one displaced group (a deletion then removes
+                # only part of the group)
+                order = sorted(set(x for x in dl if x >= 0))
+                grp = {lab: order[(i // 2) * 2] for i, lab in enumerate(order)}
+                dl = [grp.get(x, x) for x in dl]
             d = disp_move(dl)
             if rnd.random() < flavor.get("default_label", 0.15):
                 d["default_label"] = rnd.choice([0, -1, 5])
